@@ -49,6 +49,16 @@ def all_keyword_constants(F):
     return out
 
 
+def _all_ops(rv):
+    out = list(rv.get("ops", []))
+    for k in ("op", "a", "b"):
+        if isinstance(rv.get(k), dict):
+            out.append(rv[k])
+    if isinstance(rv.get("place"), dict):
+        pass
+    return out
+
+
 def punct_table(F):
     """one/two character operators: {'<': 'LessThan', '<>': 'NotEquals', ...}"""
     b = F.one("Tokenizer::chomp_one_or_two_characters")
@@ -63,12 +73,36 @@ def punct_table(F):
             first = bb
             break
     if first is None:
-        return None
-    t = b.term(first)
-    for v, tgt in t["targets"]:
-        aggs = [st["rv"]["variant"] for st in b.blocks[tgt]["stmts"]
-                if st["k"] == "assign" and st["rv"]["k"] == "aggregate" and st["rv"].get("adt", "").endswith("tokenizer::Token")]
-        out[chr(int(v))] = aggs[0] if len(aggs) == 1 else None
+        # the single-character table may be data instead of a `match`: a named constant `[(u8, Token); N]` of the tokenizer
+        # module that the matcher searches (`TABLE.iter().find(|(c, _)| *c == byte)`)
+        used = set()
+        for blk in b.blocks + [bl for cb in F.bodies.values() if cb.path.startswith(b.path + "::{closure") for bl in cb.blocks]:
+            for st in blk["stmts"]:
+                if st["k"] == "assign":
+                    for o in _all_ops(st["rv"]):
+                        if o.get("k") == "const":
+                            used.add(o.get("item", "") or "")
+                            used.add(o.get("text", "") or "")
+        for p, cb in F.bodies.items():
+            if not (str(cb.kind).startswith("Const") and p.startswith("abasic_core::tokenizer::")):
+                continue
+            if "(u8, abasic_core::tokenizer::Token)" not in cb.local_ty(0):
+                continue        # (references reach the matcher through a promoted constant, so usage is not traced here)
+            for blk in cb.blocks:
+                for st in blk["stmts"]:
+                    if st["k"] == "assign" and st["rv"]["k"] == "aggregate" and st["rv"].get("agg") == "tuple" and len(st["rv"]["ops"]) == 2:
+                        o0 = st["rv"]["ops"][0]
+                        e1 = strip_expr(cb.expr(st["rv"]["ops"][1]))
+                        if o0.get("k") == "const" and o0.get("ty") == "u8" and e1[0] == "agg" and str(e1[1]).endswith("tokenizer::Token"):
+                            out[chr(int(o0["int"]))] = e1[2]
+        if not out:
+            return None
+    else:
+        t = b.term(first)
+        for v, tgt in t["targets"]:
+            aggs = [st["rv"]["variant"] for st in b.blocks[tgt]["stmts"]
+                    if st["k"] == "assign" and st["rv"]["k"] == "aggregate" and st["rv"].get("adt", "").endswith("tokenizer::Token")]
+            out[chr(int(v))] = aggs[0] if len(aggs) == 1 else None
     # second characters: `next_char == b'x'` comparisons followed by Some(Ok(Token::V))
     for bb in sorted(b.reachable()):
         tt = b.term(bb)
